@@ -6,7 +6,7 @@ VERIF = os.path.dirname(os.path.dirname(os.path.abspath(__file__)))
 
 CLAIMED = {
     "C05": dict(
-        technique="TLA+ spec MLMC.tla model-checked by TLC (all loop histories within bounds); TLC behaviours replayed into the real engine; recorded runs trace-validated against the spec by TLC",
+        technique="TLA+ spec MLMC.tla model-checked by TLC (all loop histories within bounds) and its counter abstraction MLMCCount.tla proved by Apalache (inductive invariant, unbounded passes and sample sizes); TLC behaviours replayed into the real engine; recorded runs trace-validated against the specs by TLC (incl. Run.tla end to end on the real coupling)",
         text="Exhaustive TLC exploration of the adaptive loop / fixed-level variant (every sequence of sample-size vectors and bias-test answers within small bounds) for RowsExact / MidRunRows / AllSamplesKept / NoCrash; TLC-generated and random environment scripts are replayed into the real Engine.price / price_with_constant_mc_paths_and_level and every recorded run is validated by TLC against the specification: N_l, array contents, level means/variances/cost/price must be the exact integer functions of the samples that were simulated.",
         note="Trusted: TLC, the ScriptedCoupling stub (sample identity carried as payoff), exact-integer / rank sensors. Payoff dimension 1 only (the MLMC path manager cannot hold vector payoffs). Kurtosis and control-variate results are compared with the repository's own estimator applied to the samples the spec says the level holds (rank equality up to 1e-9).",
         ref="5 (C05)"),
